@@ -4,6 +4,9 @@
 #define C08_OPS_H
 
 #define OID(ob) ((ob) ? master()->oid_of(ob) : "0")
+// a destructed object cannot call_other(): the result of an operation during which the executing object was
+// destructed is reported as unknown
+#define ROID(ob) (this_object () ? OID (ob) : "?")
 
 mixed do_op (string s, mixed hookarg) {
   string *w = explode (s, ",");
@@ -15,11 +18,11 @@ mixed do_op (string s, mixed hookarg) {
     // typeof() sees the value the efun left on the stack (a local variable would already read as 0)
     t = typeof (load_object (p));
     ob = find_object (p);
-    VL ("r ld c08/" + w[1] + " " + OID (ob) + " " + (t == "object" ? 1 : 0));
+    VL ("r ld c08/" + w[1] + " " + ROID (ob) + " " + (t == "object" ? 1 : 0));
     break;
   case "cl":
     ob = clone_object ("/c08/" + w[1]);
-    VL ("r cl c08/" + w[1] + " " + OID (ob));
+    VL ("r cl c08/" + w[1] + " " + ROID (ob));
     break;
   case "mv":
     a = master()->get (w[1]); d = master()->get (w[2]);
